@@ -174,7 +174,7 @@ CLAIMED = {
 }
 
 # what was added to each check after the text above was written (seed rounds 3 and 4, DESIGN.md 11.6c / 11.6d)
-COMMON = (" Every other scenario is replayed on operands with warm caches, every third on Fortran-ordered data (concretisation variants "
+COMMON = (" Every other scenario is replayed on operands with warm caches, every third on Fortran-ordered data, every fifth on axes relabelled in place (concretisation variants "
           "that the abstract arrays cannot tell apart).")
 ADDENDA = {
     "C01": "Also: index lists of another kind than the axis (float labels on int axes and vice versa), empty selections with a tolerance, "
@@ -208,6 +208,27 @@ ADDENDA = {
            "lexicographic order (and left unchanged), keys with an existing axis (re-indexing); thorough: a 3-d variable with float, str and int labels.",
 }
 
+# ... and after seed rounds 7b and 8 (DESIGN.md 11.6h / 11.6i)
+ADDENDA2 = {
+    "C01": "The caller's index objects must be unchanged; equal index arrays are passed as one object. Recorded reads of the repository's tests and docstring examples are validated too.",
+    "C04": "Also: axes of 4-5 labels whose middle is shuffled (first and last in place); Python floats with fractions and NumPy scalars as scalar operands on both sides.",
+    "C05": "Also: a.values = scalar / array / ill-shaped data; empty axes specifications for data that have dimensions.",
+    "C06": "Datasets whose dimension order differs from their variable's.",
+    "C07": "Also: falsy fill values (0, 0.0); +-inf and 1e19 among the new labels of an integer axis; recorded reindex_axis calls of the repository's tests and docstring examples validated against TraceOps.",
+    "C08": "Also: by-name calls on dimensions named with digits ('1', '0', ..); a singleton between two equal lengths; recorded reductions of the repository's tests and docstring examples.",
+    "C09": "Also: by-name calls on dimensions named with digits.",
+    "C10": "Positions counted from the end (all, only the last, only the first); recorded transpose / swapaxes / squeeze / newaxis calls of the repository's tests and docstring examples validated against TraceOps.",
+    "C11": "unflatten(g) of one grouped axis by position and by name against Unflatten(r, g).",
+    "C13": "One key equals a dimension name; relabelling through a mapping onto the label 0. spec/DatasetHeapInd.tla: the invariants are inductive (every heap satisfying IndInv takes one step of Next, IndInv holds again; MaxId=2 quick, 3 thorough), hence hold for histories of any length in the model.",
+    "C14": "Integer and boolean variables; interpolation onto existing nodes only. Dataset.to_array / to_dataset are modelled too (ToArray) but lie outside the statement: disagreements are printed as OBSERVATION lines, never as violations.",
+    "C15": "Every keyword of set_axis(inplace=False).",
+    "C16": "The propagation table is replayed with the labels of x stored shuffled, decreasing and increasing, and with metadata entries named like constructor keywords (dtype, labels).",
+    "C17": "Value-range variants: valid cells replaced by infinities (fillna), integers beyond 2**24 (setna).",
+    "C18": "Node lists of 4-5 labels with the ends in place and the middle shuffled; falsy fills (0, 0.0); templates carrying the array's own labels in another order.",
+    "C19": "Infinities and a 0-d NaN through the three writers.",
+    "C20": "Index lists with the ends in place, a repeat and a gap between.",
+}
+
 REASON_TODO = "check not built yet in this round (planned, see DESIGN.md section 10)"
 
 
@@ -218,7 +239,7 @@ def main():
         pid = p["id"]
         if pid in CLAIMED:
             tech, text, note, ref = CLAIMED[pid]
-            text = text + (" " + ADDENDA[pid] if pid in ADDENDA else "") + COMMON
+            text = text + (" " + ADDENDA[pid] if pid in ADDENDA else "") + (" " + ADDENDA2[pid] if pid in ADDENDA2 else "") + COMMON
             checks.append(dict(
                 property_id=pid,
                 quick_cmd="%s run_check.py %s --tier quick" % (PY, pid),
